@@ -45,6 +45,7 @@ type Work struct {
 	Wrappers []W    `json:"wrappers"` // outermost first
 	Core     string `json:"core"`
 	NoTrail  bool   `json:"no_trail,omitempty"` // no trailing tick(): the wrapped program is the script's last statement
+	Elem     string `json:"elem,omitempty"`     // element type of the channels the blocked cores use (default int64)
 }
 
 var cores = []string{
@@ -56,6 +57,7 @@ var cores = []string{
 	"block-range-body-recv", "block-range-shared", "spin-fib", "spin-mutual",
 	"lib-spin-5", "lib-spin-v", "lib-block-5", "lib-block-v", "lib-spin-1",
 	"block-fanin-send", "block-fanout-recv",
+	"block-recv-if", "block-recv-arg", "block-recv-switch",
 }
 
 // prelude is run once, under its own never-cancelled context, on the environment the cancelled run
@@ -127,6 +129,12 @@ func renderCore(core string, u string) string {
 		return "for { func(a, b) { return a + b }(1, 2) }"
 	case "block-recv-after-first":
 		return "c" + u + " = make(chan int64, 1)\nc" + u + " <- 1\nfor v" + u + " in c" + u + " { tick() }"
+	case "block-recv-if":
+		return "c" + u + " = make(chan int64)\nif <-c" + u + " { tick() }"
+	case "block-recv-arg":
+		return "c" + u + " = make(chan int64)\nhid(hid(<-c" + u + "))"
+	case "block-recv-switch":
+		return "c" + u + " = make(chan int64)\nswitch <-c" + u + " {\ncase 1, 2:\ntick()\ndefault:\ntick()\n}"
 	case "block-fanin-send":
 		// several senders compete for the one free slot of a buffered channel while the receiver keeps draining it
 		return "c" + u + " = make(chan int64, 1)\ngo func() { for { c" + u + " <- 1 } }()\ngo func() { for { c" + u + " <- 2 } }()\ngo func(a, b, c, d, e) { for { a <- 3 } }(c" + u + ", 2, 3, 4, 5)\nfor { <-c" + u + "; tick() }"
@@ -183,10 +191,12 @@ func params(n int, u string) (string, string) {
 	return strings.Join(ps, ", "), strings.Join(as, ", ")
 }
 
-func pending(d int) string {
+// pending registers d deferred host probes at the start of a function body; dmark records that the
+// defer statement completed, so that the oracle knows the call is owed.
+func pending(d int, u string) string {
 	s := ""
 	for i := 0; i < d; i++ {
-		s += fmt.Sprintf("defer dtick(%d)\n", i+1)
+		s += fmt.Sprintf("defer dtick(%s%d)\ndmark(%s%d)\n", u, i+1, u, i+1)
 	}
 	return s
 }
@@ -244,19 +254,19 @@ func wrap(w W, body, u string) string {
 		return "try { throw \"x\" } catch e" + u + " { } finally {\n" + body + "\n}"
 	case "func":
 		ps, as := params(w.A%7, u)
-		return "func f" + u + "(" + ps + ") {\n" + pending(w.D) + body + "\n}\nf" + u + "(" + as + ")"
+		return "func f" + u + "(" + ps + ") {\n" + pending(w.D, u) + body + "\n}\nf" + u + "(" + as + ")"
 	case "funcvar":
 		if w.A%2 == 0 {
-			return "func f" + u + "(a" + u + ", b" + u + "...) {\n" + pending(w.D) + body + "\n}\nf" + u + "(1, 2, 3)"
+			return "func f" + u + "(a" + u + ", b" + u + "...) {\n" + pending(w.D, u) + body + "\n}\nf" + u + "(1, 2, 3)"
 		}
-		return "func f" + u + "(a" + u + ", b" + u + ") {\n" + pending(w.D) + body + "\n}\nf" + u + "([1, 2]...)"
+		return "func f" + u + "(a" + u + ", b" + u + ") {\n" + pending(w.D, u) + body + "\n}\nf" + u + "([1, 2]...)"
 	case "anon":
 		if w.A%2 == 0 {
-			return "func() {\n" + pending(w.D) + body + "\n}()"
+			return "func() {\n" + pending(w.D, u) + body + "\n}()"
 		}
-		return "func(a" + u + ") {\n" + pending(w.D) + body + "\n}(1)"
+		return "func(a" + u + ") {\n" + pending(w.D, u) + body + "\n}(1)"
 	case "module":
-		return "module M" + u + " {\nfunc g" + u + "() {\n" + pending(w.D) + body + "\n}\n}\nM" + u + ".g" + u + "()"
+		return "module M" + u + " {\nfunc g" + u + "() {\n" + pending(w.D, u) + body + "\n}\n}\nM" + u + ".g" + u + "()"
 	case "go":
 		switch w.A % 5 {
 		case 0:
@@ -366,6 +376,13 @@ func wrap(w W, body, u string) string {
 // broken and the program terminates).
 func Render(w *Work) string {
 	body := renderCore(w.Core, "c")
+	if w.Elem != "" && w.Elem != "int64" && strings.HasPrefix(w.Core, "block-") && !strings.Contains(w.Core, "fan") && !strings.Contains(w.Core, "range-") {
+		// the same blocked shapes over other element types (a typed fast path may treat one type differently)
+		lit := map[string]string{"float64": "1.5", "string": "\"s\"", "bool": "true", "interface": "nil"}[w.Elem]
+		body = strings.ReplaceAll(body, "chan int64", "chan "+w.Elem)
+		body = strings.ReplaceAll(body, " <- 1", " <- "+lit)
+		body = strings.ReplaceAll(body, " <- 2", " <- "+lit)
+	}
 	for i := len(w.Wrappers) - 1; i >= 0; i-- {
 		body = wrap(w.Wrappers[i], body, fmt.Sprint(i))
 	}
@@ -449,6 +466,7 @@ func (Prop) Gen(seed int64, tier string) *harness.Case {
 		}
 	}
 	w.NoTrail = r.Intn(2) == 0
+	w.Elem = []string{"int64", "int64", "float64", "string", "bool", "interface"}[r.Intn(6)]
 	wb, _ := json.Marshal(w)
 	var evs []harness.EventSpec
 	mode := r.Intn(10)
@@ -482,6 +500,51 @@ type tickRec struct {
 }
 
 func (Prop) Run(t *testing.T, c *harness.Case, verbose bool) *harness.Result {
+	return run(t, c, verbose, false)
+}
+
+// InterruptDefers is registered as "C09I": the same programs and the same injected cancellation, but
+// judged only for property C09's clause that an interrupt is an exit like any other - the deferred calls
+// of the invocations being left run, exactly once. The driver runs it as part of the C09 check.
+type InterruptDefers struct{}
+
+func init() { harness.Register(InterruptDefers{}) }
+
+func (InterruptDefers) ID() string { return "C09I" }
+
+func (InterruptDefers) Gen(seed int64, tier string) *harness.Case {
+	c := Prop{}.Gen(seed, tier)
+	c.Prop = "C09I"
+	var w Work
+	json.Unmarshal(c.Workload, &w)
+	// make sure deferred host probes are pending when the cancel lands
+	has := false
+	for i := range w.Wrappers {
+		switch w.Wrappers[i].K {
+		case "func", "funcvar", "anon", "module":
+			if w.Wrappers[i].D == 0 {
+				w.Wrappers[i].D = 1 + int(seed%3)
+			}
+			has = true
+		}
+	}
+	if !has {
+		w.Wrappers = append(w.Wrappers, W{K: "func", A: int(seed % 7), D: 1 + int(seed%3)})
+	}
+	c.Workload, _ = json.Marshal(w)
+	c.Source = Render(&w)
+	return c
+}
+
+func (InterruptDefers) Run(t *testing.T, c *harness.Case, verbose bool) *harness.Result {
+	return run(t, c, verbose, true)
+}
+
+func (InterruptDefers) Shrink(c *harness.Case) []*harness.Case { return Prop{}.Shrink(c) }
+
+func (InterruptDefers) StripKnown(c *harness.Case) (*harness.Case, bool) { return Prop{}.StripKnown(c) }
+
+func run(t *testing.T, c *harness.Case, verbose bool, onlyDefers bool) *harness.Result {
 	var w Work
 	res := &harness.Result{Counters: map[string]int{}}
 	if err := json.Unmarshal(c.Workload, &w); err != nil {
@@ -500,6 +563,7 @@ func (Prop) Run(t *testing.T, c *harness.Case, verbose bool) *harness.Result {
 	var ctx *simrt.Ctx
 	var mu sync.Mutex
 	var ticks []tickRec
+	dticks, dmarks := map[int64]int{}, map[int64]int{}
 	var mainErr error
 	var mainDone bool
 	var mainTask *simrt.Task
@@ -522,7 +586,17 @@ func (Prop) Run(t *testing.T, c *harness.Case, verbose bool) *harness.Result {
 			mu.Unlock()
 		}
 		e.Define("tick", func() { rec(false) })
-		e.Define("dtick", func(int64) { rec(true) })
+		e.Define("dtick", func(id int64) {
+			rec(true)
+			mu.Lock()
+			dticks[id]++
+			mu.Unlock()
+		})
+		e.Define("dmark", func(id int64) {
+			mu.Lock()
+			dmarks[id]++
+			mu.Unlock()
+		})
 		e.Define("hid", func(x interface{}) interface{} { simrt.Yield("host"); return x })
 		e.Define("sleep", func(ms int64) { simrt.Sleep(time.Duration(ms) * time.Millisecond) })
 		e.Define("call", func(f func()) { simrt.Yield("host"); f() })
@@ -630,6 +704,23 @@ func (Prop) Run(t *testing.T, c *harness.Case, verbose bool) *harness.Result {
 	after := sim.Step - cancelAt
 	res.Counters["steps_after_cancel_sum"] = after
 
+	if onlyDefers {
+		// C09 clause only; whether the script stops at all is C02's business, so an unfinished run is not judged here
+		if res.Outcome != "done" {
+			res.Counters["not_judged_script_did_not_stop"]++
+			return res
+		}
+		for id, n := range dmarks {
+			res.Counters["deferred_probes_owed"] += n
+			if dticks[id] != n {
+				res.Violation = "deferred-calls-lost-on-interrupt"
+				res.Detail = fmt.Sprintf("`defer dtick(%d)` was registered %d time(s) before the interrupt but ran %d time(s) by the time every task had finished\n%s", id, n, dticks[id], src)
+				res.Signature = "deferred-calls-lost-on-interrupt " + sig
+				return res
+			}
+		}
+		return res
+	}
 	for _, v := range sim.Viol {
 		res.Violation = v.Class
 		res.Detail = v.Detail + "\n" + src
